@@ -53,7 +53,7 @@ func (sv structValue) PropertyValue(index Value) Value {
 		m := sr.MethodByName(name)
 		return sv.invoke(m)
 	}
-	if field, ok := sv.findField(name); ok {
+	if field, ok := sv.findField(name); ok && field.IsExported() {
 		fv := sr.FieldByName(field.Name)
 		if fv.Kind() == reflect.Func {
 			return sv.invoke(fv)
